@@ -38,6 +38,45 @@ def Value.Len (n : Nat) : Value → Prop
   | .vec v => v.length = n
   | .cols _ _ cs => ∀ p ∈ cs, p.2.length = n
 
+/-- what the decorator's wrapper dispatches on: a vector, a dict with its keys
+(`isinstance(data, dict)`), or a 2-D array with its number of columns -/
+inductive Shape
+  | vec
+  | dict (keys : List Field)
+  | arr (width : Nat)
+deriving DecidableEq, Repr
+
+def Value.shape : Value → Shape
+  | .vec _ => .vec
+  | .cols true _ cs => .dict (cs.map (·.1))
+  | .cols false _ cs => .arr cs.length
+
+/-- the shape of the result of a stateful call, from the transform, its recorded state and the
+shape of its argument: `scale`-family → the shape of the argument (vector → vector; dict → dict with
+the same keys; array → array of the same width); `poly` → `degree` columns; `bs`/`cr`/`cc` → the keys
+their recorded knots give -/
+def resultShape (tr : Tr) (p : Params) (st : TState) (arg : Option Shape) : Option Shape :=
+  match tr, st with
+  | .scale _ _ _, .scale _ => some .vec
+  | .scale _ _ _, .keyed _ => arg
+  | .scale _ _ _, .arr _ => arg
+  | .poly d _, .poly _ => some (.arr d)
+  | .bs a, .bs s => some (.dict ((bsKeys a s).map natField))
+  | .cs _, .cs s => some (.dict (csKeys p.getQ2 s))
+  | _, _ => none
+
+/-- The shape of the value of an expression as the RECORDED states determine it (no data needed).
+`none`: a call without recorded state (or with the state of another transform). -/
+def shapeOf (env : Env) (ts : TStates) : Expr → Option Shape
+  | .col _ => some .vec
+  | .binc _ _ _ => some .vec
+  | .bin _ _ _ => some .vec
+  | .elem _ _ => some .vec
+  | .call text a =>
+    match env.call (stateKey env.norm text), getKey ts (stateKey env.norm text) with
+    | some (tr, p), some st => resultShape tr p st (shapeOf env ts a)
+    | _, _ => none
+
 end FormulaicVerif.Model.Replay
 
 namespace FormulaicVerif.Spec.Replay
@@ -60,6 +99,31 @@ def Complete (p : Params) : Tr → TState → Prop
   | .cs _, .cs _ => True
   | _, _ => False
 
+/-- a nested per-key state / per-column state of a `scale`-family call in which every recorded
+sub-state is complete -/
+def NestedComplete : Tr → TState → Prop
+  | .scale _ _ _, .keyed m => ∀ k s, getKey m k = some s → ScaleComplete s
+  | .scale _ _ _, .arr ss => ∀ s ∈ ss, ScaleComplete s
+  | _, _ => False
+
+/-- nothing recorded is half-fitted: a complete state of the transform, or a nested state all of
+whose recorded sub-states are complete -/
+def CompleteAny (p : Params) (tr : Tr) (st : TState) : Prop := Complete p tr st ∨ NestedComplete tr st
+
+/-- the recorded state of a stateful call is what a replay on an argument of shape `sh` reads:
+for a vector a complete state of the transform; for a dict a nested state with a complete entry for
+every visible key of the dict; for a 2-D array one complete state per column -/
+def ReadyFor (p : Params) (tr : Tr) (st : TState) : Shape → Prop
+  | .vec => Complete p tr st
+  | .dict ks =>
+    match tr, st with
+    | .scale _ _ _, .keyed m => ∀ k ∈ ks, k.hidden = false → ∃ s, getKey m k = some s ∧ ScaleComplete s
+    | _, _ => False
+  | .arr w =>
+    match tr, st with
+    | .scale _ _ _, .arr ss => ss.length = w ∧ ∀ s ∈ ss, ScaleComplete s
+    | _, _ => False
+
 /-- the call nodes of an expression find a complete recorded state under their key -/
 def ExprReady (env : Env) (ts : TStates) : Expr → Prop
   | .col _ => True
@@ -67,8 +131,8 @@ def ExprReady (env : Env) (ts : TStates) : Expr → Prop
   | .bin _ a b => ExprReady env ts a ∧ ExprReady env ts b
   | .elem _ a => ExprReady env ts a
   | .call text a => ExprReady env ts a ∧
-      ∃ tr p st, env.call (stateKey env.norm text) = some (tr, p) ∧
-        getKey ts (stateKey env.norm text) = some st ∧ Complete p tr st
+      ∃ tr p st sh, env.call (stateKey env.norm text) = some (tr, p) ∧
+        getKey ts (stateKey env.norm text) = some st ∧ shapeOf env ts a = some sh ∧ ReadyFor p tr st sh
 
 /-- a factor finds everything a replay reads: complete transform states, recorded categories -/
 def FactorReady (env : Env) (ts : TStates) (es : EStates) (x : String) : Prop :=
@@ -84,10 +148,19 @@ def Ready (env : Env) (s : Spec) : Prop :=
 
 /-- every recorded transform state is complete for the call it is keyed by -/
 def StatesComplete (env : Env) (ts : TStates) : Prop :=
-  ∀ k tr p st, env.call k = some (tr, p) → getKey ts k = some st → Complete p tr st
+  ∀ k tr p st, env.call k = some (tr, p) → getKey ts k = some st → CompleteAny p tr st
 
 /-- `ts'` extends `ts`: same value under every key of `ts` -/
 def Extends {κ σ : Type} [DecidableEq κ] (ts ts' : List (κ × σ)) : Prop :=
   ∀ k v, getKey ts k = some v → getKey ts' k = some v
+
+/-- one recorded state extends another: the same state, or a nested per-key state with more keys -/
+def StExt (a b : TState) : Prop :=
+  a = b ∨ ∃ m m', a = .keyed m ∧ b = .keyed m' ∧ Extends m m'
+
+/-- `ts'` extends the transform-state dictionary `ts`: every key of `ts` is still there, with the
+same state (or, for a nested per-key state, an extension of it) -/
+def TExtends (ts ts' : TStates) : Prop :=
+  ∀ k v, getKey ts k = some v → ∃ v', getKey ts' k = some v' ∧ StExt v v'
 
 end FormulaicVerif.Spec.Replay
